@@ -389,7 +389,13 @@ func (vx *Vaxis) PostEvent(ev Event) {
 // block if the queue is full. This method should only be used from a different
 // goroutine than the main thread.
 func (vx *Vaxis) PostEventBlocking(ev Event) {
-	vx.queue <- ev
+	select {
+	case vx.queue <- ev:
+	case <-vx.chQuit:
+		// Vaxis was closed: nobody is going to make room in the queue any
+		// more, don't block the poster (notably our own input goroutine)
+		// for ever
+	}
 }
 
 // SyncFunc queues a function to be called from the main thread. vaxis will call
